@@ -374,6 +374,46 @@ def heap_histories(h: Harness):
             h.count(f"heap-histories:{kind}" + ("" if ok else ":violated"))
 
 
+def class_valued_fields(h: Harness):
+    """programs whose fields hold CLASSES of the grammar as plain values (`kind: Annotated[Any, VarRange([Lit, Var, Plus])]`): a class
+    object is shared by every program that holds it, and by the grammar itself -- creating, mutating and crossing over programs writes
+    nothing onto it (the metadata of a program lives on that program's own nodes)"""
+    import ctxgrammar
+    from linear import safe
+    rng = h.rng
+    for abc_based in (True, False):
+        g, classes = ctxgrammar.kinds_grammar(abc_based=abc_based)
+        r = NativeRandomSource(rng.randrange(10**6))
+        rep = TreeBasedRepresentation(g, synth.make_decider("grow", 5, r, g))
+
+        def written():
+            return sorted((c.__name__, k) for c in classes for k in vars(c) if k.startswith("gengy_") and k not in ("gengy_labeled",) and not k.startswith("__"))
+        first = written()
+        pool = []
+        for k in range(h.n(40, 300)):
+            op = rng.choice(["create", "create", "mutate", "crossover"]) if len(pool) >= 2 else "create"
+            if op == "create":
+                st, t = safe(lambda: rep.create_genotype(r))
+                new = [t] if st == "ok" else []
+            elif op == "mutate":
+                st, t = safe(lambda: rep.mutate(r, rng.choice(pool)))
+                new = [t] if st == "ok" else []
+            else:
+                st, t = safe(lambda: rep.crossover(r, rng.choice(pool), rng.choice(pool)))
+                new = list(t) if st == "ok" else []
+            pool += new[: max(0, 12 - len(pool))]
+            h.count(f"class-valued-fields:{op}")
+            now = written()
+            if now != first:
+                extra = [x for x in now if x not in first]
+                h.fail(f"tree:{op if op != 'create' else 'create_genotype'}", "input-modified",
+                       f"operation #{k} ({op}) on a grammar whose programs hold classes as field values wrote {extra[:3]} onto the class objects themselves "
+                       f"(shared by all programs holding them and by the grammar; abstract base {'derives from ABC' if abc_based else 'is decorated @abstract'})",
+                       ["class-valued-fields", abc_based, k, op])
+                break
+        h.seen(f"class-valued-fields:{abc_based}", nontrivial=len(pool) >= 2)
+
+
 def parallel_evaluator_steps(h: Harness):
     """the steps evaluate what they are given with the evaluator they are handed: with the PARALLEL evaluator and a pool that
     is only partly evaluated (survivors + newcomers, in several layouts), every individual that already carried a fitness
@@ -410,6 +450,7 @@ def run(h: Harness):
     from props import c10
     rng = h.rng
     parallel_evaluator_steps(h)
+    class_valued_fields(h)
     heap_histories(h)
     dsge_sharing(h)
     for gi in range(h.n(14, 160)):
@@ -683,4 +724,32 @@ def run(h: Harness):
                         h.fail(f"{name}:GeneticProgramming.search", "input-modified",
                                f"an individual registered in generation {ind.metadata.get('generation')} was modified by later generations: {why}",
                                [line, name, seedv])
+                # the same under AdaptiveGeneticProgramming (feedback on the slice weights, adaptive operator probabilities, a population size
+                # that changes): its own steps look at whole populations on the way
+                if name == "tree" and gi % 4 == 0:
+                    from geneticengine.algorithms.gp.adaptive import AdaptiveGeneticProgramming
+                    from geneticengine.evaluation.budget import AnyOf, TimeBudget
+                    snaps2 = {}
+
+                    class Snap2(SearchRecorder):
+                        def register(self, tracker, individual, problem, is_best):
+                            snaps2.setdefault(id(individual), (individual, ind_snapshot(individual, b, problem)))
+                    mproblem = MultiObjectiveProblem([False, True], lambda p: [float(len(repr(p)) % 23), float(len(repr(p)) % 5)]) if gi % 8 == 0 else problem
+                    from geneticengine.evaluation.tracker import MultiObjectiveProgressTracker
+                    tcls = MultiObjectiveProgressTracker if mproblem is not problem else SingleObjectiveProgressTracker
+                    tracker2 = tcls(mproblem, SequentialEvaluator(), recorders=[Snap2()])
+
+                    def adaptive():
+                        alg2 = AdaptiveGeneticProgramming(mproblem, AnyOf(EvaluationBudget(150), TimeBudget(20)), rep, NativeRandomSource(seedv), tracker2)
+                        alg2.population_size = 8
+                        return alg2.search()
+                    st, _ = safe(adaptive)
+                    h.count(f"adaptive-gp:{name}:{st}")
+                    for ind, snap in snaps2.values():
+                        why = still_valid(snap, ind_snapshot(ind, b, mproblem), is_dsge)
+                        if why:
+                            h.fail(f"{name}:AdaptiveGeneticProgramming.search", "input-modified",
+                                   f"an individual registered in generation {ind.metadata.get('generation')} of an adaptive GP run was modified later: {why}",
+                                   [line, name, seedv, "adaptive"])
+                            break
                         break
